@@ -51,5 +51,7 @@ SEEDED = [
     ("C08-11", "C08-DET"),
     ("C08-12", "C08-OVER"),
     ("C08-13", "C08-PATCH"),
+    ("C08-14", "C08-DET"),
+    ("C08-15", "C08-CONST"),
 ]
 MUTANTS = list(MUTANTS) + [_P("seed-" + sid, _os.path.join(_SEEDS, sid, "patch.diff"), rule) for sid, rule in SEEDED if _os.path.exists(_os.path.join(_SEEDS, sid, "patch.diff"))]
